@@ -7,7 +7,7 @@ ENV = dict(os.environ, GOFLAGS="-mod=mod", GOPROXY="off")
 ENV.pop("GOSUMDB", None); ENV.pop("GOTOOLCHAIN", None)
 BASE = json.load(open("/root/.vp/BASELINE.json"))
 def sh(cmd, cwd, timeout=900):
-    p = subprocess.run(cmd, cwd=cwd, env=ENV, shell=True, stdout=subprocess.PIPE, stderr=subprocess.STDOUT, text=True, timeout=timeout)
+    p = subprocess.run(cmd, cwd=cwd, env=ENV, shell=True, stdout=subprocess.PIPE, stderr=subprocess.STDOUT, text=True, errors="replace", timeout=timeout)
     return p.returncode, p.stdout
 def suite(wt):
     rc, out = sh("go test -vet=off -count=1 -json ./...", wt)
@@ -18,8 +18,8 @@ def suite(wt):
         if e.get("Test") and e.get("Action") in ("pass", "fail"):
             (p if e["Action"] == "pass" else f).add(e["Package"] + "::" + e["Test"])
     return p, f
-def main(pid, k):
-    src = "/tmp/mut/%s.out/%s" % (pid, k)
+def main(pid, k, base="/tmp/mut", off=0):
+    src = "%s/%s.out/%s" % (base, pid, k)
     wt = "/tmp/seedchk_%s_%s" % (pid, k)
     sh("git -C /repo worktree remove --force %s" % wt, "/")
     rc, out = sh("git -C /repo worktree add --detach %s HEAD" % wt, "/")
@@ -38,7 +38,7 @@ def main(pid, k):
         loc = meta.get("demo_location", ".") or "."
         demo = os.path.join(wt, loc, "zz_seeded_demo_test.go")
         shutil.copy(src + "/demo_test.go", demo)
-        flags = "-race " if (pid == "C17" and "race" in json.dumps(meta).lower() and k == "1") else ""
+        flags = "-race " if (pid == "C17" and "-race" in json.dumps(meta)) else ""
         cmd = "go test %s-count=1 -run 'TestSeededDemo$' ./%s" % (flags, loc)
         rc1, out1 = sh(cmd, wt)
         if rc1 == 0 and flags == "" and pid == "C17":
@@ -51,7 +51,7 @@ def main(pid, k):
             return dict(ok=False, why="demo does not fail with the change")
         if rc2 != 0:
             return dict(ok=False, why="demo does not pass without the change: " + out2[-300:])
-        dst = "/verif/seeded/%s-%s" % (pid, k)
+        dst = "/verif/seeded/%s-%d" % (pid, int(k) + off)
         os.makedirs(dst, exist_ok=True)
         shutil.copy(src + "/patch.diff", dst + "/patch.diff")
         shutil.copy(src + "/demo_test.go", dst + "/demo_test.go")
@@ -65,5 +65,5 @@ def main(pid, k):
         sh("git -C /repo worktree remove --force %s" % wt, "/")
         shutil.rmtree(wt, ignore_errors=True)
 if __name__ == "__main__":
-    r = main(sys.argv[1], sys.argv[2])
+    r = main(sys.argv[1], sys.argv[2], *( [sys.argv[3], int(sys.argv[4])] if len(sys.argv) > 4 else []))
     print(sys.argv[1], sys.argv[2], json.dumps(r))
